@@ -27,8 +27,8 @@ CLAIMED = {
       note="Only decode entry points are judged; accessor panics on decoded values are counted, not reported. Address string parsers are out of scope. Samples the mutation space."),
   "C23": dict(engine="E1 netsim1", level="exploration", design="§4 C23, Appendix A",
       technique="deterministic simulation of a real agent vs. a simulated (spec-driven, partly Byzantine) peer over two real multiplexers on seeded pipes; per-state sweep of every message through send_message/recv_message plus high-level moves judged by spec automata",
-      text="17 protocol x role agents of the original stack converse for up to 40 steps with a simulated peer; at each reached state every message variant is offered to send_message and delivered to recv_message (verdict must match the spec's agency/transition table, accepted sends must reach the peer unchanged, raw calls must not move the state), then a legal or illegal move is taken through the high-level API and the resulting state compared with the spec successor.",
-      note="N2C handshake/chainsync share generic code with N2N and are not driven separately; agents with private raw API are judged through high-level methods only. Six KNOWN-FINDING signatures (tx-monitor single Busy state)."),
+      text="21 protocol x role agents of the original stack converse for up to 40 steps with a simulated peer; at each reached state every message variant is offered to send_message and delivered to recv_message (verdict must match the spec's agency/transition table, accepted sends must reach the peer unchanged, raw calls must not move the state), then a legal or illegal move is taken through the high-level API and the resulting state compared with the spec successor.",
+      note="21 agents incl. the N2C instantiations; agents with private raw API are judged through high-level methods only. Six KNOWN-FINDING signatures (tx-monitor single Busy state)."),
   "C26": dict(engine="E4 histsim + E1 netsim1", level="exploration", design="§4 C26",
       technique="deterministic history simulation vs. Vec<Point> reference model; plus two-node chain-sync simulation with a forking producer feeding the real client and buffer",
       text="Operation histories (<= 200 ops over 2..9 points, forcing duplicates and misses) are applied to the real RollbackBuffer and a list model compared after every step; a second batch obtains the roll-forward/backward history from a simulated forking chain-sync server through the real N2NClient over real multiplexers.",
@@ -36,7 +36,7 @@ CLAIMED = {
   "C42": dict(engine="E3 disksim", level="exploration", design="§4 C42, Appendix B",
       technique="deterministic simulation of a writer model of cardano-node's ImmutableDB interleaved with the real reader; single-copy-log reference model",
       text="Per run a seeded database is written into a tmpfs directory by a model of the node's append path (real blocks, seeded chunk boundaries, empty slots, chunk numbers); reader operations run while the writer appends / finalises / opens chunks between reader steps; results are compared with a single-copy log of the immutable chunks at listing time (full read, tip, exact / fuzzy / absent points, Origin).",
-      note="Block metadata of the model comes from MultiEraBlock::decode. No genesis-rooted fixture exists, so the Origin success path is exercised only for its error outcome. Known findings: slot-only point before the first block; empty immutable chunk files."),
+      note="Block metadata of the model comes from MultiEraBlock::decode. A genesis-rooted chain built from genesis.block + Byron block artefacts makes the Origin success path reachable. Known findings: slot-only point before the first block; empty immutable chunk files."),
   "C43": dict(engine="E3 disksim", level="fault_enumeration", design="§4 C43",
       technique="deterministic fault injection on the simulated disk state (torn/short/lost/zero-length files, garbled offsets, bit flips) with crash-supervised child process and address-space limit",
       text="Seeded databases receive truncations at seeded byte offsets (sweep batch: one truncation per run), lost and zero-length files, garbled primary/secondary offsets and bit flips; all reader operations then run and every yielded block is decoded. Oracle: no panic, no process abort (the check runs in a supervised child under RLIMIT_AS, aborts are attributed to the run via per-worker breadcrumbs), bounded output.",
@@ -60,10 +60,10 @@ CLAIMED = {
   "C27": dict(engine="E2 p2psim", level="exploration", design="§4 C27, §2.3",
       technique="deterministic discrete-event simulation of InitiatorBehavior vs. simulated interface and peers with fault injection (connect failure, reset, Byzantine messages); set/limit/ban invariants after every step",
       text="Seeded histories of commands, housekeeping passes and interface events (faithful connection model, 1..3 and 1..20 peers, small limits) drive the real InitiatorBehavior; after every step the four promotion sets are checked for disjointness and limits, the banned set for monotonicity, and every Connect output is checked, at the instant it is produced, against the set of peers banned so far.",
-      note="Trusts the simulated interface's event-order rules (DESIGN §2.3) and that polling the outbound queue is side-effect free. Manager is replaced by the seeded loop. BanPeer of an untracked peer is not judged."),
+      note="Trusts the simulated interface's event-order rules (DESIGN §2.3) and that polling the outbound queue is side-effect free. Manager is replaced by the seeded loop in this check. BanPeer of an untracked peer is not judged."),
   "C28": dict(engine="E2 p2psim", level="exploration", design="§4 C28, §2.3",
       technique="deterministic simulation with seeded delay of Sent/Recv confirmations relative to housekeeping and commands; wire monitor (spec automata) judging every emitted message against emitted+received history",
-      text="Seeded schedules interleave commands, repeated housekeeping, output hand-over, Sent/Recv/Error/Disconnected delivery and replies of conformant simulated responders; each Send output is judged when produced against the spec state implied by all messages previously emitted to and received from that peer; a responder-side automaton cross-checks at dispatch. Lock-step sub-batches (no in-flight emissions) keep the rest of the space judged despite the known update-on-Sent defect.",
+      text="Seeded schedules interleave commands, repeated housekeeping, output hand-over, Sent/Recv/Error/Disconnected delivery and replies of conformant simulated responders; each Send output is judged when produced against the spec state implied by all messages previously emitted to and received from that peer; a responder-side automaton cross-checks at dispatch. Lock-step sub-batches (no in-flight emissions) keep the rest of the space judged despite the known update-on-Sent defect; two further batches run the real Manager + TcpInterface/TcpConnectionPool over seeded pipes (hooks H2/H3) against simulated nodes that judge every message read off the wire.",
       note="Trusts spec::proto and the event-order rules of the simulated interface. Eight KNOWN-FINDING signatures (one root cause: emitters decide on the Sent-confirmed state) are stepped over by resetting the connection."),
   "C29": dict(engine="E2 p2psim", level="exploration", design="§4 C29",
       technique="deterministic simulation of both behaviours under Byzantine peers and an unconstrained interface-event alphabet; panic capture with minimised replay",
